@@ -37,74 +37,74 @@ static int sp_lexcmp(view_t x, view_t y) { for (int i = 0; i < N; ++i) { if ((un
 #define ARB(v) VF_INPUT(V, v); __CPROVER_assume(WF(v))
 #define CAPACITY_UNCHANGED(v) VF_ASSERT(v_capacity(&(v)) == N && v_max_size(&(v)) == N, "capacity() and max_size() are always N")
 
-/*@GROUP name=default_ctor props=C01,C02 kind=K unwind=9 when=VF_N>0@*/
+/*@GROUP name=default_ctor props=C01,C02 kind=K unwind=9 when=(VF_N>0)*(VF_N<=8)@*/
 void h_default_ctor(void) { VF_INPUT(V, v); /* indeterminate storage */ v_default(&v);
   VF_ASSERT(SZ(v) == 0 && v_size(&v) == 0 && v_empty(&v), "default construction establishes wf and the empty view (no uninitialised size)"); CAPACITY_UNCHANGED(v); VF_REACH(); }
 
-/*@GROUP name=push_back props=C01,C02,C05 kind=K unwind=9 when=VF_N>0@*/
+/*@GROUP name=push_back props=C01,C02,C05 kind=K unwind=9 when=(VF_N>0)*(VF_N<=8)@*/
 void h_push_back(void) { ARB(v); VF_INPUT(int, x); VF_INPUT(unsigned char, which); __CPROVER_assume(SZ(v) < N); view_t o = view_of(&v);
   if (which == 0) v_push_back(&v, &x); else if (which == 1) v_push_back_rv(&v, x); else v_emplace_back(&v, x);
   VF_ASSERT(WF(v) && view_eq(view_of(&v), sp_insert_n(o, o.n, 1, x)), "push_back/emplace_back: n' = n+1, prefix unchanged, a'[n] = x"); CAPACITY_UNCHANGED(v); VF_REACH(); }
 
-/*@GROUP name=pop_back props=C01,C02,C05 kind=K unwind=9 when=VF_N>0@*/
+/*@GROUP name=pop_back props=C01,C02,C05 kind=K unwind=9 when=(VF_N>0)*(VF_N<=8)@*/
 void h_pop_back(void) { ARB(v); __CPROVER_assume(SZ(v) > 0); view_t o = view_of(&v); v_pop_back(&v);
   VF_ASSERT(WF(v) && view_eq(view_of(&v), sp_erase(o, o.n - 1, o.n)), "pop_back: n' = n-1, prefix unchanged"); VF_REACH(); }
 
-/*@GROUP name=insert props=C01,C02,C05 kind=K unwind=9 cost=3 when=VF_N>0@*/
+/*@GROUP name=insert props=C01,C02,C05 kind=K unwind=9 cost=3 when=(VF_N>0)*(VF_N<=8)@*/
 void h_insert(void) { ARB(v); VF_INPUT(int, x); VF_INPUT(unsigned char, p); VF_INPUT(unsigned char, which); __CPROVER_assume(SZ(v) < N && p <= SZ(v)); view_t o = view_of(&v);
   int *r = which == 0 ? v_insert(&v, data_of(&v) + p, &x) : (which == 1 ? v_insert_rv(&v, data_of(&v) + p, x) : v_emplace(&v, data_of(&v) + p, x));
   VF_ASSERT(WF(v) && view_eq(view_of(&v), sp_insert_n(o, p, 1, x)), "insert/emplace(pos,x): n' = n+1; prefix; a'[p] = x; suffix shifted up by one");
   VF_ASSERT(r == data_of(&v) + p, "insert/emplace(pos,x) returns begin()+p"); CAPACITY_UNCHANGED(v); VF_REACH(); }
 
-/*@GROUP name=insert_n props=C01,C02,C05 kind=K unwind=9 cost=3 when=VF_N>0@*/
+/*@GROUP name=insert_n props=C01,C02,C05 kind=K unwind=9 cost=3 when=(VF_N>0)*(VF_N<=8)@*/
 void h_insert_n(void) { ARB(v); VF_INPUT(int, x); VF_INPUT(unsigned char, p); VF_INPUT(unsigned char, c); __CPROVER_assume(p <= SZ(v) && c <= N && SZ(v) + c <= N); view_t o = view_of(&v);
   int *r = v_insert_n(&v, data_of(&v) + p, c, &x);
   VF_ASSERT(WF(v) && view_eq(view_of(&v), sp_insert_n(o, p, c, x)), "insert(pos,c,x): n' = n+c; prefix; c copies of x; suffix shifted up by c");
   VF_ASSERT(r == data_of(&v) + p, "insert(pos,c,x) returns begin()+p (also for c == 0)"); VF_REACH(); }
 
-/*@GROUP name=insert_range props=C01,C02,C05 kind=K unwind=9 cost=3 when=VF_N>0@*/
+/*@GROUP name=insert_range props=C01,C02,C05 kind=K unwind=9 cost=3 when=(VF_N>0)*(VF_N<=8)@*/
 void h_insert_range(void) { ARB(v); VF_INPUT(unsigned char, p); VF_INPUT(unsigned char, c); __CPROVER_assume(p <= SZ(v) && c <= N && SZ(v) + c <= N); VF_BUF(int, src, c, N); view_t o = view_of(&v);
   int *r = v_insert_range(&v, data_of(&v) + p, src, src + c);
   VF_ASSERT(WF(v) && view_eq(view_of(&v), sp_insert_range(o, p, src_in, c)), "insert(pos,first,last): n' = n+c; prefix; the source range in order; suffix shifted up by c");
   VF_ASSERT(r == data_of(&v) + p, "insert(pos,first,last) returns begin()+p (also for an empty range)"); VF_REACH(); }
 
-/*@GROUP name=erase props=C01,C02,C05 kind=K unwind=9 when=VF_N>0@*/
+/*@GROUP name=erase props=C01,C02,C05 kind=K unwind=9 when=(VF_N>0)*(VF_N<=8)@*/
 void h_erase(void) { ARB(v); VF_INPUT(unsigned char, p); __CPROVER_assume(p < SZ(v)); view_t o = view_of(&v);
   int *r = v_erase(&v, data_of(&v) + p);
   VF_ASSERT(WF(v) && view_eq(view_of(&v), sp_erase(o, p, p + 1)), "erase(pos): n' = n-1; prefix; suffix shifted down by one");
   VF_ASSERT(r == data_of(&v) + p, "erase(pos) returns the position of the element that followed"); VF_REACH(); }
 
-/*@GROUP name=erase_range props=C01,C02,C05 kind=K unwind=9 when=VF_N>0@*/
+/*@GROUP name=erase_range props=C01,C02,C05 kind=K unwind=9 when=(VF_N>0)*(VF_N<=8)@*/
 void h_erase_range(void) { ARB(v); VF_INPUT(unsigned char, f); VF_INPUT(unsigned char, l); __CPROVER_assume(f <= l && l <= SZ(v)); view_t o = view_of(&v);
   int *r = v_erase_range(&v, data_of(&v) + f, data_of(&v) + l);
   VF_ASSERT(WF(v) && view_eq(view_of(&v), sp_erase(o, f, l)), "erase(first,last): n' = n-(l-f); prefix; suffix shifted down");
   VF_ASSERT(r == data_of(&v) + f, "erase(first,last) returns begin()+f (also for an empty range)"); VF_REACH(); }
 
-/*@GROUP name=resize props=C01,C02,C05 kind=K unwind=9 when=VF_N>0@*/
+/*@GROUP name=resize props=C01,C02,C05 kind=K unwind=9 when=(VF_N>0)*(VF_N<=8)@*/
 void h_resize(void) { ARB(v); VF_INPUT(unsigned char, m); VF_INPUT(int, x); VF_INPUT_BOOL(with_value); __CPROVER_assume(m <= N); view_t o = view_of(&v);
   if (with_value) v_resize_x(&v, m, &x); else v_resize(&v, m);
   VF_ASSERT(WF(v) && view_eq(view_of(&v), sp_resize(o, m, with_value ? x : 0)), "resize(m[,x]): n' = m; common prefix kept; new slots are T{} / x"); VF_REACH(); }
 
-/*@GROUP name=assign props=C01,C02,C05 kind=K unwind=9 when=VF_N>0@*/
+/*@GROUP name=assign props=C01,C02,C05 kind=K unwind=9 when=(VF_N>0)*(VF_N<=8)@*/
 void h_assign(void) { ARB(v); VF_INPUT(unsigned char, c); VF_INPUT(int, x); __CPROVER_assume(c <= N); view_t e; e.n = 0;
   v_assign_n(&v, c, &x);
   VF_ASSERT(WF(v) && view_eq(view_of(&v), sp_resize(e, c, x)), "assign(c,x): c copies of x"); VF_REACH(); }
 
-/*@GROUP name=assign_range props=C01,C02,C05 kind=K unwind=9 when=VF_N>0@*/
+/*@GROUP name=assign_range props=C01,C02,C05 kind=K unwind=9 when=(VF_N>0)*(VF_N<=8)@*/
 void h_assign_range(void) { ARB(v); VF_INPUT(unsigned char, c); __CPROVER_assume(c <= N); VF_BUF(int, src, c, N); view_t e; e.n = 0;
   v_assign_range(&v, src, src + c);
   VF_ASSERT(WF(v) && view_eq(view_of(&v), sp_insert_range(e, 0, src_in, c)), "assign(first,last): exactly the source range"); VF_REACH(); }
 
-/*@GROUP name=clear props=C01,C02 kind=K unwind=9 when=VF_N>0@*/
+/*@GROUP name=clear props=C01,C02 kind=K unwind=9 when=(VF_N>0)*(VF_N<=8)@*/
 void h_clear(void) { ARB(v); v_clear(&v); VF_ASSERT(SZ(v) == 0 && v_empty(&v) && v_size(&v) == 0, "clear: empty"); CAPACITY_UNCHANGED(v); VF_REACH(); }
 
-/*@GROUP name=ctors props=C01,C02,C05 kind=K unwind=9 when=VF_N>0@*/
+/*@GROUP name=ctors props=C01,C02,C05 kind=K unwind=9 when=(VF_N>0)*(VF_N<=8)@*/
 void h_ctors(void) { VF_INPUT(V, a); VF_INPUT(V, b); VF_INPUT(V, c); VF_INPUT(unsigned char, m); VF_INPUT(int, x); __CPROVER_assume(m <= N); VF_BUF(int, src, m, N); view_t e; e.n = 0;
   v_ctor_n(&a, m); VF_ASSERT(WF(a) && view_eq(view_of(&a), sp_resize(e, m, 0)), "static_vector(n): n value-initialised elements");
   v_ctor_n_x(&b, m, &x); VF_ASSERT(WF(b) && view_eq(view_of(&b), sp_resize(e, m, x)), "static_vector(n,x): n copies of x");
   v_ctor_range(&c, src, src + m); VF_ASSERT(WF(c) && view_eq(view_of(&c), sp_insert_range(e, 0, src_in, m)), "static_vector(first,last): the source range"); VF_REACH(); }
 
-/*@GROUP name=copy_move props=C01,C02 kind=K unwind=9 cost=2 when=VF_N>0@*/
+/*@GROUP name=copy_move props=C01,C02 kind=K unwind=9 cost=2 when=(VF_N>0)*(VF_N<=8)@*/
 void h_copy_move(void) { ARB(s); VF_INPUT(V, t); VF_INPUT(unsigned char, which); VF_INPUT(int, x); view_t os = view_of(&s); V s0 = s;
   if (which == 0) v_copy_ctor(&t, &s);
   else if (which == 1) { __CPROVER_assume(WF(t)); v_copy_assign(&t, &s); }
@@ -116,30 +116,30 @@ void h_copy_move(void) { ARB(s); VF_INPUT(V, t); VF_INPUT(unsigned char, which);
     if (SZ(t) > 0) { EL(t, 0) = x; v_pop_back(&t); } VF_ASSERT(view_eq(view_of(&s), os), "independence: mutating the copy leaves the source view unchanged"); }
   VF_REACH(); }
 
-/*@GROUP name=self_assign props=C01,C02 kind=K unwind=9 when=VF_N>0@*/
+/*@GROUP name=self_assign props=C01,C02 kind=K unwind=9 when=(VF_N>0)*(VF_N<=8)@*/
 void h_self_assign(void) { ARB(s); view_t os = view_of(&s); VF_INPUT_BOOL(mv); if (mv) v_move_assign(&s, &s); else v_copy_assign(&s, &s);
   VF_ASSERT(WF(s), "self-assignment keeps the object well-formed"); VF_KNOWN(C01_self_copy_assign, !mv && os.n > 0); if (!mv) VF_ASSERT(view_eq(view_of(&s), os), "copy self-assignment keeps the view"); VF_REACH(); }
 
-/*@GROUP name=swap props=C01,C02 kind=K unwind=9 cost=2 when=VF_N>0@*/
+/*@GROUP name=swap props=C01,C02 kind=K unwind=9 cost=2 when=(VF_N>0)*(VF_N<=8)@*/
 void h_swap(void) { ARB(a); ARB(b); VF_INPUT_BOOL(fr); view_t oa = view_of(&a), ob = view_of(&b); if (fr) v_swap_free(&a, &b); else v_swap(&a, &b);
   VF_ASSERT(WF(a) && WF(b) && view_eq(view_of(&a), ob) && view_eq(view_of(&b), oa), "swap exchanges the two views"); VF_REACH(); }
 
-/*@GROUP name=self_swap props=C01,C02 kind=K unwind=9 when=VF_N>0@*/
+/*@GROUP name=self_swap props=C01,C02 kind=K unwind=9 when=(VF_N>0)*(VF_N<=8)@*/
 void h_self_swap(void) { ARB(a); view_t oa = view_of(&a); v_swap(&a, &a); VF_ASSERT(WF(a) && view_eq(view_of(&a), oa), "self-swap keeps the view"); VF_REACH(); }
 
-/*@GROUP name=relational props=C01,C02 kind=K unwind=9 when=VF_N>0@*/
+/*@GROUP name=relational props=C01,C02 kind=K unwind=9 when=(VF_N>0)*(VF_N<=8)@*/
 void h_relational(void) { ARB(a); ARB(b); int c = sp_lexcmp(view_of(&a), view_of(&b)); _Bool eq = view_eq(view_of(&a), view_of(&b));
   VF_ASSERT(v_eq(&a, &b) == eq && v_ne(&a, &b) == !eq, "== and != compare size and elements");
   VF_ASSERT(v_lt(&a, &b) == (c < 0) && v_le(&a, &b) == (c <= 0) && v_gt(&a, &b) == (c > 0) && v_ge(&a, &b) == (c >= 0), "<,<=,>,>= are the lexicographic comparison of the two views"); VF_REACH(); }
 
-/*@GROUP name=erase_value props=C01,C02 kind=K unwind=9 cost=2 when=VF_N>0@*/
+/*@GROUP name=erase_value props=C01,C02 kind=K unwind=9 cost=2 when=(VF_N>0)*(VF_N<=8)@*/
 void h_erase_value(void) { ARB(v); VF_INPUT(int, x); VF_INPUT_BOOL(pred); view_t o = view_of(&v); view_t e; e.n = 0;
   for (int i = 0; i < N; ++i) if ((unsigned long)i < o.n && !(pred ? o.a[i] % 3 == 0 : o.a[i] == x)) { e.a[e.n] = o.a[i]; ++e.n; }
   unsigned long r = pred ? v_erase_if(&v) : v_erase_value(&v, &x);
   VF_ASSERT(WF(v) && view_eq(view_of(&v), e), "erase(c,value)/erase_if(c,pred): exactly the non-matching elements survive, in their original order");
   VF_ASSERT(r == o.n - e.n, "erase/erase_if return the number of removed elements"); VF_REACH(); }
 
-/*@GROUP name=access props=C01,C02,C05 kind=K unwind=9 when=VF_N>0@*/
+/*@GROUP name=access props=C01,C02,C05 kind=K unwind=9 when=(VF_N>0)*(VF_N<=8)@*/
 void h_access(void) { ARB(v); VF_INPUT(unsigned char, i); view_t o = view_of(&v);
   VF_ASSERT(v_size(&v) == o.n && v_empty(&v) == (o.n == 0) && v_full(&v) == (o.n == N), "size/empty/full follow the view"); CAPACITY_UNCHANGED(v);
   VF_ASSERT(v_data(&v) == data_of(&v) && v_begin(&v) == data_of(&v) && v_end(&v) == data_of(&v) + o.n, "data/begin/end");
@@ -148,7 +148,7 @@ void h_access(void) { ARB(v); VF_INPUT(unsigned char, i); view_t o = view_of(&v)
   if (i < o.n) { VF_ASSERT(v_index(&v, i) == data_of(&v) + i && v_cindex(&v, i) == data_of(&v) + i, "operator[](i) addresses element i"); }
   VF_REACH(); }
 
-/*@GROUP name=stack props=C01,C02 kind=K unwind=9 when=VF_N>0@*/
+/*@GROUP name=stack props=C01,C02 kind=K unwind=9 when=(VF_N>0)*(VF_N<=8)@*/
 void h_stack(void) { VF_INPUT(S, s); VF_INPUT(S, t); VF_INPUT(int, x); VF_INPUT(unsigned char, op); __CPROVER_assume(WF(s.c) && WF(t.c)); view_t o = view_of(&s.c), ot = view_of(&t.c);
   VF_ASSERT(s_size(&s) == o.n && s_empty(&s) == (o.n == 0), "stack size/empty follow the container");
   VF_ASSERT(s_eq(&s, &t) == view_eq(o, ot) && s_lt(&s, &t) == (sp_lexcmp(o, ot) < 0), "stack comparisons are the container's");
@@ -157,8 +157,20 @@ void h_stack(void) { VF_INPUT(S, s); VF_INPUT(S, t); VF_INPUT(int, x); VF_INPUT(
   else if (op == 2) { s_swap(&s, &t); VF_ASSERT(view_eq(view_of(&s.c), ot) && view_eq(view_of(&t.c), o), "stack swap"); }
   VF_REACH(); }
 
+/*@GROUP name=boundary props=C01,C02,C05 kind=F when=VF_N>=200@*/
+void h_boundary(void) { /* the internal size type changes width around capacity 255/256: loop-free members from every state, ghost element index g */
+  ARB(v); VF_INPUT(int, x); VF_INPUT(unsigned long, g); __CPROVER_assume(g < N); unsigned long n = SZ(v); int old_g = EL(v, g);
+  VF_ASSERT(v_size(&v) == n && v_full(&v) == (n == N) && v_empty(&v) == (n == 0), "size/full/empty follow the stored size at a size-type boundary capacity"); CAPACITY_UNCHANGED(v);
+  VF_ASSERT(v_end(&v) == data_of(&v) + n, "end() == begin() + size()");
+  if (n < N) { v_push_back(&v, &x);
+    VF_ASSERT(SZ(v) == n + 1 && v_size(&v) == n + 1 && v_empty(&v) == 0 && v_full(&v) == (n + 1 == N), "push_back up to and including the last free slot: size grows by one, no wrap-around of the size field");
+    VF_ASSERT(EL(v, g) == (g == n ? x : old_g), "push_back writes slot n only");
+    VF_ASSERT(v_back(&v) == data_of(&v) + n, "back() addresses the new element"); CAPACITY_UNCHANGED(v);
+    v_pop_back(&v); VF_ASSERT(SZ(v) == n && v_size(&v) == n, "pop_back undoes it"); }
+  VF_REACH(); }
+
 /* ---- C05: violated preconditions reach the handler, object untouched -------------------------------------------------- */
-/*@GROUP name=viol_grow props=C05,C02 kind=K unwind=9 when=VF_N>0@*/
+/*@GROUP name=viol_grow props=C05,C02 kind=K unwind=9 when=(VF_N>0)*(VF_N<=8)@*/
 void h_viol_grow(void) { ARB(v); VF_INPUT(int, x); VF_INPUT(unsigned char, op); VF_INPUT(unsigned char, p); VF_INPUT(unsigned long, c); __CPROVER_assume(p <= SZ(v)); EXPECT_VIOLATION(v);
   if (op == 0) { __CPROVER_assume(SZ(v) == N); v_push_back(&v, &x); }
   else if (op == 1) { __CPROVER_assume(SZ(v) == N); v_emplace_back(&v, x); }
@@ -171,17 +183,23 @@ void h_viol_grow(void) { ARB(v); VF_INPUT(int, x); VF_INPUT(unsigned char, op); 
   else { __CPROVER_assume(SZ(v) == N); v_insert_rv(&v, data_of(&v) + p, x); }
   VF_NORETURN_EXPECTED(); }
 
-/*@GROUP name=viol_empty props=C05,C02 kind=K unwind=9 when=VF_N>0@*/
+/*@GROUP name=viol_grow_range props=C05,C02 kind=K unwind=9 when=(VF_N>0)*(VF_N<=8)@*/
+void h_viol_grow_range(void) { /* a sized range that does not fit the REMAINING room (it may well fit an empty vector) */
+  ARB(v); VF_INPUT(unsigned char, p); VF_INPUT(unsigned char, c); __CPROVER_assume(p <= SZ(v) && c <= N && SZ(v) + c > N); VF_BUF(int, src, c, N); EXPECT_VIOLATION(v);
+  v_insert_range(&v, data_of(&v) + p, src, src + c);
+  VF_NORETURN_EXPECTED(); }
+
+/*@GROUP name=viol_empty props=C05,C02 kind=K unwind=9 when=(VF_N>0)*(VF_N<=8)@*/
 void h_viol_empty(void) { ARB(v); VF_INPUT(unsigned char, op); __CPROVER_assume(SZ(v) == 0); EXPECT_VIOLATION(v);
   if (op == 0) v_pop_back(&v); else if (op == 1) v_back(&v); else v_front(&v);
   VF_NORETURN_EXPECTED(); }
 
-/*@GROUP name=viol_index props=C05,C02 kind=K unwind=9 when=VF_N>0@*/
+/*@GROUP name=viol_index props=C05,C02 kind=K unwind=9 when=(VF_N>0)*(VF_N<=8)@*/
 void h_viol_index(void) { ARB(v); VF_INPUT(unsigned long, i); VF_INPUT_BOOL(cst); __CPROVER_assume(i >= SZ(v));
   VF_KNOWN(C05_index_ptrdiff_cast, i > 0x7fffffffffffffffUL);
   EXPECT_VIOLATION(v); if (cst) v_cindex(&v, i); else v_index(&v, i); VF_NORETURN_EXPECTED(); }
 
-/*@GROUP name=viol_pos props=C05,C02 kind=K unwind=9 when=VF_N>0@*/
+/*@GROUP name=viol_pos props=C05,C02 kind=K unwind=9 when=(VF_N>0)*(VF_N<=8)@*/
 void h_viol_pos(void) { ARB(v); VF_INPUT(int, x); VF_INPUT(unsigned char, op); VF_INPUT(unsigned char, p); VF_INPUT(unsigned char, q);
   /* positions outside [begin,end] but inside the storage array, and reversed iterator pairs */
   EXPECT_VIOLATION(v);
